@@ -60,6 +60,9 @@ func (g *G) Test(axis string) Test {
 		// name tests on the namespace axis are outside the listed properties
 		return Test{K: "node"}
 	}
+	if (axis == "parent" || axis == "self") && g.coin("dotTest", 1, 3) {
+		return Test{K: "node"} // '..' and '.', the everyday spelling of these axes
+	}
 	k := g.int("testKind", 0, 11)
 	switch {
 	case k <= 4 && len(names) > 0:
